@@ -40,12 +40,13 @@ struct Em : public Callback::Emitter
 {
   int id;
   Em(int id) : id(id) {}
+  // signal 0 uses the arity-0 overloads of emit/connect/disconnect, signal 1 the arity-1 overloads
   void sig0() {}
-  void sig1() {}
+  void sig1(int) {}
   void fire(int g)
   {
     if(g == 0) emit(&Em::sig0);
-    else emit(&Em::sig1);
+    else emit<Em, int>(&Em::sig1, 7);
   }
 };
 
@@ -58,12 +59,31 @@ struct Li : public Callback::Listener
   // `id` is read through `this`: invoking a slot of a deleted listener is a heap-use-after-free
   void slot0() { runSlot(id, 0); }
   void slot1() { runSlot(id, 1); }
+  // the same two slots with the signature of signal 1
+  void slot0a(int a) { runSlot(a == 7 ? id : -1, 0); }
+  void slot1a(int a) { runSlot(a == 7 ? id : -1, 1); }
 };
 
-typedef void (Em::*SigFn)();
-typedef void (Li::*SlotFn)();
-static SigFn sigFn(int g) { return g == 0 ? &Em::sig0 : &Em::sig1; }
-static SlotFn slotFn(int s) { return s == 0 ? &Li::slot0 : &Li::slot1; }
+static void doConnect(Em* e, int g, Li* l, int s)
+{
+  if(g == 0) Callback::connect(e, &Em::sig0, l, s == 0 ? &Li::slot0 : &Li::slot1);
+  else Callback::connect(e, &Em::sig1, l, s == 0 ? &Li::slot0a : &Li::slot1a);
+}
+
+static void doDisconnect(Em* e, int g, Li* l, int s)
+{
+  if(g == 0) Callback::disconnect(e, &Em::sig0, l, s == 0 ? &Li::slot0 : &Li::slot1);
+  else Callback::disconnect(e, &Em::sig1, l, s == 0 ? &Li::slot0a : &Li::slot1a);
+}
+
+static Callback::MemberFuncPtr sigPtr(int g) { return g == 0 ? Callback::MemberFuncPtr(&Em::sig0) : Callback::MemberFuncPtr(&Em::sig1); }
+// index of a slot pointer (either signature)
+static int slotIndexOf(const Callback::MemberFuncPtr& p)
+{
+  if(p == Callback::MemberFuncPtr(&Li::slot0) || p == Callback::MemberFuncPtr(&Li::slot0a)) return 0;
+  if(p == Callback::MemberFuncPtr(&Li::slot1) || p == Callback::MemberFuncPtr(&Li::slot1a)) return 1;
+  return -1;
+}
 
 static Em* em[NE];
 static Li* li[NL];
@@ -75,10 +95,10 @@ static void doAct(const Act& a)
   switch(a.kind)
   {
   case 'c':
-    if(em[a.e] && li[a.l]) Callback::connect(em[a.e], sigFn(a.g), li[a.l], slotFn(a.s));
+    if(em[a.e] && li[a.l]) doConnect(em[a.e], a.g, li[a.l], a.s);
     break;
   case 'd':
-    if(em[a.e] && li[a.l]) Callback::disconnect(em[a.e], sigFn(a.g), li[a.l], slotFn(a.s));
+    if(em[a.e] && li[a.l]) doDisconnect(em[a.e], a.g, li[a.l], a.s);
     break;
   case 'm':
     if(em[a.e]) em[a.e]->fire(a.g);
@@ -147,18 +167,12 @@ static void resetAll()
   logLen = 0;
 }
 
-static int slotIndex(const Callback::MemberFuncPtr& p)
-{
-  for(int s = 0; s < NS; ++s)
-    if(p == Callback::MemberFuncPtr(slotFn(s)))
-      return s;
-  return -1;
-}
+static int slotIndex(const Callback::MemberFuncPtr& p) { return slotIndexOf(p); }
 
 static int sigIndex(const Callback::MemberFuncPtr& p)
 {
   for(int g = 0; g < NG; ++g)
-    if(p == Callback::MemberFuncPtr(sigFn(g)))
+    if(p == sigPtr(g))
       return g;
   return -1;
 }
@@ -181,7 +195,7 @@ static void observe()
     for(int g = 0; g < NG; ++g)
     {
       printf("%sg%d=", g ? " " : "", g);
-      Map<Callback::MemberFuncPtr, Callback::Emitter::SignalData>::Iterator it = em[e]->signalData.find(Callback::MemberFuncPtr(sigFn(g)));
+      Map<Callback::MemberFuncPtr, Callback::Emitter::SignalData>::Iterator it = em[e]->signalData.find(sigPtr(g));
       if(it == em[e]->signalData.end())
       {
         printf("-");
